@@ -30,36 +30,109 @@ func (check) Cases(tier string) int {
 }
 
 func (check) Rule() string {
-	return "a config is built from a generated tree (every node a dictionary or a list, no references) and then driven through a history of 3-20 shape-aware operations: writes of primitives and fresh sub-configs at existing/new keys and list positions, removals (biased to the middle of lists), merges of a shape-compatible mutation of the current tree under default/append/prepend/replace/arr-replace, and as an optional last step re-attachment of an already parented child (SetChild of a handle obtained with Child). After EVERY step: (1) hook walk: every stored field name equals the key/index actually leading to the node and every stored parent is the config actually holding it; (2) API walk: Child(...).Path(\".\") equals the address sequence and Parent() is the config it was reached from; (3) FlattenedKeys equals the model's set of non-nil primitive leaf paths; (4) CompareConfigs(previous state, current) equals the (kept, added, removed) partition of the two model key sets and a config compared with an equal copy reports no change. Non-trivial = history with >= 2 successful structural mutations; distinct = distinct (initial tree, history)."
+	return "a config is built from a generated tree (every node a dictionary or a list, no references) (root a dictionary, in 1 of 5 cases a list) and then driven through a history of 3-20 shape-aware operations, each issued either on the root or on a handle obtained with Child for a randomly chosen non-empty dictionary or list of the tree (addresses relative to that receiver, spelled with a per-case path separator drawn from a pool): writes of primitives and fresh sub-configs at existing/new keys and list positions, removals (biased to the middle of lists), merges of a shape-compatible mutation of the receiver's subtree (a map for a dictionary receiver, a list for a list receiver; passed as Go data, as a parentless *Config or as a child handle of another config) under default/append/prepend/replace/arr-replace, and as an optional last step re-attachment of an already parented child (SetChild of a handle obtained with Child). After EVERY step: (1) hook walk: every stored field name equals the key/index actually leading to the node and every stored parent is the config actually holding it; (2) API walk: Child(...).Path(sep) and PathOf(field, sep) equal the address sequence and Parent() is the config it was reached from, FlattenedKeys of sampled child handles lists the root-relative paths below them; (3) FlattenedKeys equals the model's set of non-nil primitive leaf paths; (4) CompareConfigs(previous state, current) equals the (kept, added, removed) partition of the two model key sets and a config compared with an equal copy reports no change. Every observer call draws its own option list: no option at all (paths spelled with \".\") or PathSep with a separator from the pool (paths spelled with it). Non-trivial = history with >= 2 successful structural mutations; distinct = distinct (initial tree, history)."
 }
 
 func (check) Assumptions() []string {
 	return []string{
 		"tree-store and merge models as in C12/C01 predict the structure after each step",
 		"FlattenedKeys lists non-nil primitive leaves only (empty containers and nils are not settings), as the statement says",
+		"Path/PathOf/FlattenedKeys/CompareConfigs spell paths with the separator they are given (\".\" when FlattenedKeys/CompareConfigs get no option), whatever separator the config was built or written with; key names never contain a separator of the pool",
+		"FlattenedKeys called on a child handle lists the settings below that child with root-relative paths (the statement says root-relative)",
 		"a re-attached child is expected at its new place (and, the old handle still being stored there, at the old one); histories end after a re-attachment",
 	}
 }
 
-type state struct {
-	res    *harness.R
-	r      *rand.Rand
-	c      *ucfg.Config
-	m      *model.Node
-	log    []string
-	muts   int
-	failed bool
-	// bookkeeping for the classifier
-	listRemovals map[string]bool // paths of lists from which an element was removed
-	reattached   []string        // destination paths of re-attached children
-	reattachSrc  []string
+// event records where one step of the history changed the structure and which
+// narrow signature a deviation found at or below that place gets ("" = the
+// generic signature of the observation that failed).
+type event struct {
+	path string // "."-joined absolute path of the container the step worked on
+	sig  string
 }
 
-var opts = []ucfg.Option{ucfg.PathSep(".")}
+type state struct {
+	res        *harness.R
+	r          *rand.Rand
+	c          *ucfg.Config
+	m          *model.Node
+	sep        string // separator of all addressed operations of the case
+	log        []string
+	muts       int
+	failed     bool
+	events     []event // bookkeeping for the classifier, one or two per step
+	reattached bool
+}
+
+// sepPool: separators for addressed operations and for the observers. Key
+// names (gen.Keys, "r", "w", decimal indices) contain none of them.
+var sepPool = []string{".", "/", ":", "::", "|", "->"}
 
 var treeOpts = gen.TreeOpts{NoEmpty: false, Prims: []interface{}{"s", "t", int64(-3), uint64(7), true, 2.5, ""}}
 
+// join is the canonical (model side) spelling of a path.
 func join(q []string) string { return strings.Join(q, ".") }
+
+// o is the option list of the addressed operations of the case.
+func (s *state) o() []ucfg.Option { return []ucfg.Option{ucfg.PathSep(s.sep)} }
+
+// nm spells a path for the API with the separator of the case.
+func (s *state) nm(q []string) string { return strings.Join(q, s.sep) }
+
+// observer draws the option list of one observer call together with the
+// separator the reported paths must then be spelled with.
+func (s *state) observer() ([]ucfg.Option, string) {
+	i := s.r.Intn(len(sepPool) + 2)
+	if i >= len(sepPool) {
+		s.res.SetAdd("observer_options", "<none>")
+		return nil, "."
+	}
+	s.res.SetAdd("observer_options", "PathSep("+sepPool[i]+")")
+	return []ucfg.Option{ucfg.PathSep(sepPool[i])}, sepPool[i]
+}
+
+// respell turns canonical paths into the spelling with sep, sorted.
+func respell(keys []string, sep string) []string {
+	out := make([]string, len(keys))
+	for i, k := range keys {
+		out[i] = strings.ReplaceAll(k, ".", sep)
+	}
+	sort.Strings(out)
+	return out
+}
+
+// foreign reports whether some key is no path of the universe in the
+// requested spelling but is one in the spelling of another separator.
+func foreign(keys, universe []string, sep string) bool {
+	in := map[string]bool{}
+	for _, k := range respell(universe, sep) {
+		in[k] = true
+	}
+	for _, sp := range sepPool {
+		if sp == sep {
+			continue
+		}
+		alt := map[string]bool{}
+		for _, k := range respell(universe, sp) {
+			alt[k] = true
+		}
+		for _, k := range keys {
+			if !in[k] && alt[k] {
+				return true
+			}
+		}
+	}
+	return false
+}
+
+func nested(keys []string) bool {
+	for _, k := range keys {
+		if strings.Contains(k, ".") {
+			return true
+		}
+	}
+	return false
+}
 
 // nodesOf lists the paths of all nodes of the wanted kind.
 func nodesOf(n *model.Node, q []string, want func(*model.Node) bool, out *[][]string) {
@@ -97,13 +170,35 @@ func at(n *model.Node, q []string) *model.Node {
 func isList(n *model.Node) bool { return n.IsSub() && (n.HasA || len(n.A) > 0) && len(n.D) == 0 }
 func isDict(n *model.Node) bool { return n.IsSub() && !isList(n) }
 
+func cat(a, b []string) []string { return append(append([]string{}, a...), b...) }
+
 // compat makes b shape-compatible with cur: where one holds a dictionary and
 // the other a list, b's node is replaced by a primitive (the quantifier of C15
 // excludes nodes that are both).
 func compat(cur, b *model.Node) *model.Node {
-	if b.IsSub() && len(b.D) > 0 && (len(b.A) > 0 || b.HasA) {
-		b.A, b.HasA = nil, false // never generate a node that is both
+	eitherOr(b)
+	return compat1(cur, b)
+}
+
+// eitherOr makes every node of b a dictionary or a list: a mutation of a
+// blank node that received a list part may add keys to it; such a node keeps
+// its dictionary part only (which is also all that ToGo would render).
+func eitherOr(b *model.Node) {
+	if !b.IsSub() {
+		return
 	}
+	if len(b.D) > 0 && (len(b.A) > 0 || b.HasA) {
+		b.A, b.HasA = nil, false
+	}
+	for _, v := range b.D {
+		eitherOr(v)
+	}
+	for _, v := range b.A {
+		eitherOr(v)
+	}
+}
+
+func compat1(cur, b *model.Node) *model.Node {
 	if cur == nil || !cur.IsSub() || !b.IsSub() {
 		return b
 	}
@@ -113,11 +208,11 @@ func compat(cur, b *model.Node) *model.Node {
 		return model.P("shape")
 	}
 	for k, v := range b.D {
-		b.D[k] = compat(cur.D[k], v)
+		b.D[k] = compat1(cur.D[k], v)
 	}
 	for i, v := range b.A {
 		if i < len(cur.A) {
-			b.A[i] = compat(cur.A[i], v)
+			b.A[i] = compat1(cur.A[i], v)
 		}
 	}
 	return b
@@ -143,21 +238,16 @@ func (s *state) fail(sig, format string, a ...interface{}) {
 	s.res.Violate(sig, "%s; history=[%s]", fmt.Sprintf(format, a...), strings.Join(s.log, "; "))
 }
 
-// classify narrows a structural deviation at walk path w to a known shape.
+// classify narrows a structural deviation at walk path w (canonical spelling)
+// to the most recent step of the history that worked at or above w.
 func (s *state) classify(w string, generic string) string {
-	for _, d := range s.reattached {
-		if w == d || strings.HasPrefix(w, d+".") {
-			return "reattached-child-keeps-old-path"
-		}
-	}
-	for _, d := range s.reattachSrc {
-		if w == d || strings.HasPrefix(w, d+".") {
-			return "reattached-child-keeps-old-path"
-		}
-	}
-	for l := range s.listRemovals {
-		if l == "" || w == l || strings.HasPrefix(w, l+".") {
-			return "stale-index-after-list-remove"
+	for i := len(s.events) - 1; i >= 0; i-- {
+		e := s.events[i]
+		if e.path == "" || w == e.path || strings.HasPrefix(w, e.path+".") {
+			if e.sig != "" {
+				return e.sig
+			}
+			return generic
 		}
 	}
 	return generic
@@ -170,26 +260,45 @@ func (s *state) address(q []string) (string, int) {
 	}
 	last := q[len(q)-1]
 	if i, err := strconv.Atoi(last); err == nil && (len(q) == 1 || s.r.Intn(2) == 0) {
-		return join(q[:len(q)-1]), i
+		return s.nm(q[:len(q)-1]), i
 	}
-	return join(q), -1
+	return s.nm(q), -1
+}
+
+// rootList generates a non-empty top-level list.
+func rootList(r *rand.Rand) *model.Node {
+	for {
+		n := gen.Top(r, treeOpts, 3)
+		if isList(n) && len(n.A) > 0 {
+			return n
+		}
+	}
 }
 
 func (check) Run(seed int64, tier string, idx int, verbose bool) harness.Result {
 	res := harness.NewR(idx)
 	r := rand.New(rand.NewSource(harness.Mix(seed, "C15", idx)))
-	s := &state{res: res, r: r, listRemovals: map[string]bool{}}
-	s.m = gen.TopDict(r, treeOpts, 3)
+	s := &state{res: res, r: r, sep: "."}
+	if r.Intn(2) == 0 {
+		s.sep = sepPool[r.Intn(len(sepPool))]
+	}
+	res.SetAdd("operation_sep", s.sep)
+	if r.Intn(5) == 0 {
+		s.m = rootList(r)
+		res.Ev("cases_with_list_root", 1)
+	} else {
+		s.m = gen.TopDict(r, treeOpts, 3)
+	}
 	init := s.m.String()
 	panicked, pv, where := harness.Safe(func() {
-		c, err := ucfg.NewFrom(s.m.ToGo(), opts...)
+		c, err := ucfg.NewFrom(s.m.ToGo(), s.o()...)
 		res.Eval(1)
 		if err != nil {
 			s.fail("newfrom-error", "NewFrom(%s): %v", s.m, err)
 			return
 		}
 		s.c = c
-		s.log = append(s.log, "NewFrom("+init+")")
+		s.log = append(s.log, fmt.Sprintf("sep=%q NewFrom(%s)", s.sep, init))
 		s.verify(nil)
 		n := 3 + r.Intn(18)
 		for i := 0; i < n && !s.failed; i++ {
@@ -214,6 +323,41 @@ func (check) Run(seed int64, tier string, idx int, verbose bool) harness.Result 
 	return res.Done()
 }
 
+// receiver chooses the config the next operation is issued on: the root or a
+// handle (obtained with Child) of a non-empty container somewhere in the tree.
+// rq is its absolute path, rm its model node, kind names what it is.
+func (s *state) receiver() (recv *ucfg.Config, rq []string, rm *model.Node, kind, pfx string, ok bool) {
+	if s.r.Intn(2) == 0 {
+		var cand [][]string
+		nodesOf(s.m, nil, func(n *model.Node) bool { return n.IsSub() && (len(n.D) > 0 || len(n.A) > 0) }, &cand)
+		if len(cand) > 0 && len(cand[0]) == 0 {
+			cand = cand[1:] // the root itself
+		}
+		if len(cand) > 0 {
+			rq = cand[s.r.Intn(len(cand))]
+		}
+	}
+	rm, recv = at(s.m, rq), s.c
+	where := "root"
+	if len(rq) > 0 {
+		name, idx := s.address(rq)
+		h, err := s.c.Child(name, idx, s.o()...)
+		s.res.Eval(1)
+		if err != nil {
+			s.fail("child-error", "Child(%q,%d) of the non-empty container at %v failed: %v", name, idx, rq, err)
+			return nil, nil, nil, "", "", false
+		}
+		recv, where = h, "handle"
+		pfx = fmt.Sprintf("Child(%q,%d).", name, idx)
+	}
+	kind = where + "-dict"
+	if isList(rm) {
+		kind = where + "-list"
+	}
+	s.res.SetAdd("receiver", kind)
+	return recv, rq, rm, kind, pfx, true
+}
+
 // step performs one operation; returns true if the history must end.
 func (s *state) step(last bool) bool {
 	r := s.r
@@ -222,19 +366,29 @@ func (s *state) step(last bool) bool {
 	if last && r.Intn(3) == 0 {
 		op = 100 // re-attachment, only ever as the last step
 	}
+	var recv *ucfg.Config
+	var rq []string
+	var rm *model.Node
+	var kind, pfx string
+	if op < 20 {
+		var ok bool
+		if recv, rq, rm, kind, pfx, ok = s.receiver(); !ok {
+			return true
+		}
+	}
 	switch {
 	case op < 7: // write into a dictionary or a list
 		var cont [][]string
-		nodesOf(s.m, nil, func(n *model.Node) bool { return n.IsSub() }, &cont)
+		nodesOf(rm, nil, func(n *model.Node) bool { return n.IsSub() }, &cont)
 		q := cont[r.Intn(len(cont))]
-		n := at(s.m, q)
+		n := at(rm, q)
 		var seg string
 		if isList(n) && (len(n.A) > 0 || n.HasA) {
 			seg = strconv.Itoa(r.Intn(len(n.A) + 1)) // overwrite or append; no padding (nil elements are fine too but keep lists dense)
 		} else {
 			seg = gen.Keys[r.Intn(len(gen.Keys))]
 		}
-		full := append(append([]string{}, q...), seg)
+		full := cat(q, []string{seg})
 		name, idx := s.address(full)
 		var val *model.Node
 		var err error
@@ -257,107 +411,147 @@ func (s *state) step(last bool) bool {
 				s.fail("merge-error", "Merge into fresh config failed: %v", e)
 				return true
 			}
-			err = s.c.SetChild(name, idx, fresh, opts...)
-			s.log = append(s.log, fmt.Sprintf("SetChild(%q,%d,%s)", name, idx, val))
-			s.res.SetAdd("op", "setchild-fresh")
+			err = recv.SetChild(name, idx, fresh, s.o()...)
+			s.log = append(s.log, fmt.Sprintf("%sSetChild(%q,%d,%s)", pfx, name, idx, val))
+			s.res.SetAdd("op", "setchild-fresh@"+kind)
 		} else {
 			x := []interface{}{"w", int64(-9), uint64(4), true, 1.5}[r.Intn(5)]
 			val = model.P(x)
 			switch v := x.(type) {
 			case string:
-				err = s.c.SetString(name, idx, v, opts...)
+				err = recv.SetString(name, idx, v, s.o()...)
 			case int64:
-				err = s.c.SetInt(name, idx, v, opts...)
+				err = recv.SetInt(name, idx, v, s.o()...)
 			case uint64:
-				err = s.c.SetUint(name, idx, v, opts...)
+				err = recv.SetUint(name, idx, v, s.o()...)
 			case bool:
-				err = s.c.SetBool(name, idx, v, opts...)
+				err = recv.SetBool(name, idx, v, s.o()...)
 			case float64:
-				err = s.c.SetFloat(name, idx, v, opts...)
+				err = recv.SetFloat(name, idx, v, s.o()...)
 			}
-			s.log = append(s.log, fmt.Sprintf("Set(%q,%d,%v)", name, idx, x))
-			s.res.SetAdd("op", "set-primitive")
+			s.log = append(s.log, fmt.Sprintf("%sSet(%q,%d,%v)", pfx, name, idx, x))
+			s.res.SetAdd("op", "set-primitive@"+kind)
 		}
 		s.res.Eval(1)
 		if err != nil {
-			s.fail("set-error", "write at %v failed: %v", full, err)
+			s.fail("set-error", "write at %v below %v failed: %v", full, rq, err)
 			return true
 		}
 		var fs []model.Fld
 		for _, sg := range full {
 			fs = append(fs, model.ParseField(sg, 1024))
 		}
-		if !model.Set(s.m, fs, val.Copy()) {
-			s.fail("model-error", "model rejected write at %v", full)
+		if !model.Set(rm, fs, val.Copy()) {
+			s.fail("model-error", "model rejected write at %v below %v", full, rq)
 			return true
 		}
+		s.events = append(s.events, event{join(cat(rq, q)), ""})
 		s.muts++
+		if len(rq) > 0 {
+			s.res.Ev("writes_and_removals_through_handle", 1)
+		}
 	case op < 12: // removal, biased to the middle of lists
 		var cand [][]string
-		nodesOf(s.m, nil, func(n *model.Node) bool { return isList(n) && len(n.A) >= 2 }, &cand)
+		nodesOf(rm, nil, func(n *model.Node) bool { return isList(n) && len(n.A) >= 2 }, &cand)
 		var full []string
 		if len(cand) > 0 && r.Intn(4) > 0 {
 			q := cand[r.Intn(len(cand))]
-			n := at(s.m, q)
+			n := at(rm, q)
 			i := r.Intn(len(n.A) - 1) // never the last element: later ones must shift
-			full = append(append([]string{}, q...), strconv.Itoa(i))
-			s.listRemovals[join(q)] = true
+			full = cat(q, []string{strconv.Itoa(i)})
+			s.events = append(s.events, event{join(cat(rq, q)), "stale-index-after-list-remove"})
 			s.res.Ev("removals_from_middle_of_list", 1)
 		} else {
 			var dicts [][]string
-			nodesOf(s.m, nil, func(n *model.Node) bool { return isDict(n) && len(n.D) > 0 }, &dicts)
+			nodesOf(rm, nil, func(n *model.Node) bool { return isDict(n) && len(n.D) > 0 }, &dicts)
 			if len(dicts) == 0 {
 				return false
 			}
 			q := dicts[r.Intn(len(dicts))]
-			ks := at(s.m, q).SortedKeys()
-			full = append(append([]string{}, q...), ks[r.Intn(len(ks))])
+			ks := at(rm, q).SortedKeys()
+			full = cat(q, []string{ks[r.Intn(len(ks))]})
+			s.events = append(s.events, event{join(cat(rq, q)), ""})
 		}
 		name, idx := s.address(full)
-		ok, err := s.c.Remove(name, idx, opts...)
+		ok, err := recv.Remove(name, idx, s.o()...)
 		s.res.Eval(1)
-		s.log = append(s.log, fmt.Sprintf("Remove(%q,%d)", name, idx))
+		s.log = append(s.log, fmt.Sprintf("%sRemove(%q,%d)", pfx, name, idx))
 		if err != nil || !ok {
-			s.fail("remove-outcome", "Remove(%v) returned (%v,%v), expected removal", full, ok, err)
+			s.fail("remove-outcome", "Remove(%v) below %v returned (%v,%v), expected removal", full, rq, ok, err)
 			return true
 		}
 		var fs []model.Fld
 		for _, sg := range full {
 			fs = append(fs, model.ParseField(sg, 1024))
 		}
-		model.Remove(s.m, fs)
+		model.Remove(rm, fs)
 		s.muts++
-		s.res.SetAdd("op", "remove")
-	case op < 20: // merge a shape-compatible mutation
+		s.res.SetAdd("op", "remove@"+kind)
+		if len(rq) > 0 {
+			s.res.Ev("writes_and_removals_through_handle", 1)
+		}
+	case op < 20: // merge a shape-compatible mutation of the receiver's subtree into the receiver
 		pols := []struct {
 			p model.Policy
 			o ucfg.Option
 		}{{model.PDefault, nil}, {model.PAppend, ucfg.AppendValues}, {model.PPrepend, ucfg.PrependValues}, {model.PReplace, ucfg.ReplaceValues}, {model.PArrReplace, ucfg.ReplaceArrValues}}
 		pol := pols[r.Intn(len(pols))]
-		b := compat(s.m, gen.MutateTop(r, treeOpts, s.m, 3))
-		if !b.IsSub() || isList(b) {
-			return false
+		form := r.Intn(4)
+		b := compat(rm, gen.MutateTop(r, treeOpts, rm, 3))
+		if !b.IsSub() || isList(b) != isList(rm) {
+			return false // a dictionary receiver gets a map, a list receiver a list
 		}
-		mo := append([]ucfg.Option{}, opts...)
+		mo := s.o()
 		if pol.o != nil {
 			mo = append(mo, pol.o)
 		}
-		err := s.c.Merge(b.ToGo(), mo...)
+		// operand form: Go data, a parentless *Config, a child handle of another config
+		var operand interface{} = b.ToGo()
+		fname := "go-data"
+		switch form {
+		case 2:
+			if oc, e := ucfg.NewFrom(b.ToGo(), s.o()...); e == nil {
+				operand, fname = oc, "config"
+			}
+		case 3:
+			if wc, e := ucfg.NewFrom(map[string]interface{}{"w": b.ToGo()}, s.o()...); e == nil {
+				if ch, e := wc.Child("w", -1); e == nil {
+					operand, fname = ch, "child-of-other-config"
+				}
+			}
+		}
+		moving := isList(rm) && len(rm.A) > 0 && len(b.A) > 0 && pol.p == model.PPrepend
+		err := recv.Merge(operand, mo...)
 		s.res.Eval(1)
-		s.log = append(s.log, fmt.Sprintf("Merge[%v](%s)", pol.p, b))
+		s.log = append(s.log, fmt.Sprintf("%sMerge[%v,%s](%s)", pfx, pol.p, fname, b))
 		if err != nil {
-			s.fail("merge-error", "Merge failed: %v", err)
+			s.fail("merge-error", "Merge into %s at %v failed: %v", kind, rq, err)
 			return true
 		}
-		model.Merge(s.m, b.Copy(), nil, model.Global(pol.p))
+		model.Merge(rm, b.Copy(), nil, model.Global(pol.p))
+		sig := ""
+		if kind != "root-dict" {
+			sig = "wrong-context-after-" + pol.p.String() + "-merge-into-" + kind
+		}
+		s.events = append(s.events, event{join(rq), sig})
 		s.muts++
-		s.res.SetAdd("op", "merge-"+pol.p.String())
+		s.res.SetAdd("op", "merge-"+pol.p.String()+"@"+kind)
+		s.res.SetAdd("merge_operand_form", fname)
+		if len(rq) > 0 {
+			s.res.Ev("merges_into_handle", 1)
+		}
+		if isList(rm) {
+			s.res.Ev("merges_into_list_receiver", 1)
+		}
+		if moving {
+			s.res.Ev("prepend_merges_moving_elements_of_list_receiver", 1)
+		}
 	default: // re-attach an already parented child somewhere else
 		var subs, dicts [][]string
 		nodesOf(s.m, nil, func(n *model.Node) bool { return n.IsSub() }, &subs)
 		nodesOf(s.m, nil, func(n *model.Node) bool { return isDict(n) }, &dicts)
 		var src, dst []string
-		for try := 0; try < 20; try++ {
+		for try := 0; try < 20 && len(dicts) > 0; try++ {
 			a, b := subs[r.Intn(len(subs))], dicts[r.Intn(len(dicts))]
 			if len(a) == 0 {
 				continue
@@ -373,23 +567,23 @@ func (s *state) step(last bool) bool {
 			return false
 		}
 		name, idx := s.address(src)
-		h, err := s.c.Child(name, idx, opts...)
+		h, err := s.c.Child(name, idx, s.o()...)
 		if err != nil {
 			return false // e.g. an empty container that reads as nil
 		}
 		key := "r"
-		full := append(append([]string{}, dst...), key)
-		err = s.c.SetChild(join(full), -1, h, opts...)
+		full := cat(dst, []string{key})
+		err = s.c.SetChild(s.nm(full), -1, h, s.o()...)
 		s.res.Eval(2)
-		s.log = append(s.log, fmt.Sprintf("SetChild(%q,-1, Child(%q,%d))", join(full), name, idx))
+		s.log = append(s.log, fmt.Sprintf("SetChild(%q,-1, Child(%q,%d))", s.nm(full), name, idx))
 		if err != nil {
 			s.fail("set-error", "re-attachment failed: %v", err)
 			return true
 		}
 		sub := at(s.m, src)
 		at(s.m, dst).Set(key, sub) // the same node now sits in both places
-		s.reattached = append(s.reattached, join(full))
-		s.reattachSrc = append(s.reattachSrc, join(src))
+		s.events = append(s.events, event{join(full), "reattached-child-keeps-old-path"}, event{join(src), "reattached-child-keeps-old-path"})
+		s.reattached = true
 		s.muts++
 		s.res.SetAdd("op", "reattach")
 		s.verify(prev)
@@ -428,7 +622,8 @@ func (s *state) verify(prev *model.Node) {
 		}
 	}
 	// (2) API walk
-	s.apiWalk(s.c, s.m, nil)
+	_, wsep := s.observer()
+	s.apiWalk(s.c, s.m, nil, wsep)
 	if s.failed {
 		return
 	}
@@ -436,85 +631,155 @@ func (s *state) verify(prev *model.Node) {
 	var want []string
 	leafPaths(s.m, nil, &want)
 	sort.Strings(want)
-	got := s.c.FlattenedKeys(opts...)
+	fo, fsep := s.observer()
+	got := s.c.FlattenedKeys(fo...)
 	s.res.Eval(1)
-	if strings.Join(got, "\n") != strings.Join(want, "\n") {
+	if wantS := respell(want, fsep); !eq(got, wantS) {
 		sig := "flattenedkeys-mismatch"
-		// attribute to a known shape if every differing key lies under one
-		diffKeys := symdiff(got, want)
-		all := len(diffKeys) > 0
-		cls := ""
-		for _, k := range diffKeys {
-			c := s.classify(k, "")
-			if c == "" || (cls != "" && c != cls) {
-				all = false
-				break
+		if foreign(got, want, fsep) {
+			sig = "flattenedkeys-spelled-with-other-separator"
+		} else {
+			// attribute to a known shape if every differing key lies under one
+			diffKeys := symdiff(got, wantS)
+			all := len(diffKeys) > 0
+			cls := ""
+			for _, k := range diffKeys {
+				c := s.classify(strings.ReplaceAll(k, fsep, "."), "")
+				if c == "" || (cls != "" && c != cls) {
+					all = false
+					break
+				}
+				cls = c
 			}
-			cls = c
+			if all {
+				sig = cls
+			}
 		}
-		if all {
-			sig = cls
-		}
-		s.fail(sig, "FlattenedKeys=%v want %v", got, want)
+		s.fail(sig, "FlattenedKeys(%s)=%v want %v", optName(fo, fsep), got, wantS)
 		return
 	}
 	s.res.Ev("flattened_keys_compared", int64(len(want)))
+	if fsep != "." && nested(want) {
+		s.res.Ev("flattenedkeys_calls_other_sep_with_nested_keys", 1)
+	}
 	// (4) CompareConfigs
-	cp, err := ucfg.NewFrom(s.m.ToGo(), opts...)
-	if err == nil && len(s.reattached) == 0 {
-		d := diff.CompareConfigs(s.c, cp, opts...)
+	cp, err := ucfg.NewFrom(s.m.ToGo(), s.o()...)
+	if err == nil && !s.reattached {
+		do, dsep := s.observer()
+		d := diff.CompareConfigs(s.c, cp, do...)
 		s.res.Eval(1)
-		if d.HasChanged() || len(d[diff.Keep]) != len(want) {
-			s.fail("diff-equal-configs-changed", "CompareConfigs(x, equal copy) = %v, expected no change and %d kept keys", d, len(want))
+		if d.HasChanged() || !eq(sorted(d[diff.Keep]), respell(want, dsep)) {
+			sig := "diff-equal-configs-changed"
+			if foreign(cat(cat(d[diff.Keep], d[diff.Add]), d[diff.Remove]), want, dsep) {
+				sig = "diff-keys-spelled-with-other-separator"
+			}
+			s.fail(sig, "CompareConfigs(x, equal copy, %s) = %v, expected no change and kept keys %v", optName(do, dsep), d, respell(want, dsep))
 			return
 		}
+		if dsep != "." && nested(want) {
+			s.res.Ev("diffs_other_sep_with_nested_keys", 1)
+		}
 		if prev != nil {
-			pc, err := ucfg.NewFrom(prev.ToGo(), opts...)
+			pc, err := ucfg.NewFrom(prev.ToGo(), s.o()...)
 			if err == nil {
 				var old []string
 				leafPaths(prev, nil, &old)
-				d := diff.CompareConfigs(pc, s.c, opts...)
+				do, dsep := s.observer()
+				var d diff.Diff
+				rev := s.r.Intn(4) == 0 // the step undone: added and removed change places
+				if rev {
+					d = diff.CompareConfigs(s.c, pc, do...)
+					old, want = want, old
+				} else {
+					d = diff.CompareConfigs(pc, s.c, do...)
+				}
 				s.res.Eval(1)
 				wk, wa, wr := partition(old, want)
+				wk, wa, wr = respell(wk, dsep), respell(wa, dsep), respell(wr, dsep)
 				gk, ga, gr := sorted(d[diff.Keep]), sorted(d[diff.Add]), sorted(d[diff.Remove])
 				if !eq(gk, wk) || !eq(ga, wa) || !eq(gr, wr) {
-					s.fail("diff-partition-mismatch", "CompareConfigs(prev, cur): keep=%v add=%v remove=%v; want keep=%v add=%v remove=%v", gk, ga, gr, wk, wa, wr)
+					sig := "diff-partition-mismatch"
+					if foreign(cat(cat(gk, ga), gr), cat(old, want), dsep) {
+						sig = "diff-keys-spelled-with-other-separator"
+					}
+					s.fail(sig, "CompareConfigs(old, new, %s) reversed=%v: keep=%v add=%v remove=%v; want keep=%v add=%v remove=%v", optName(do, dsep), rev, gk, ga, gr, wk, wa, wr)
 					return
 				}
 				s.res.Ev("diffs_compared", 1)
 				if len(wa) > 0 && len(wr) > 0 {
 					s.res.Ev("diffs_with_added_and_removed", 1)
 				}
+				if dsep != "." && (nested(old) || nested(want)) {
+					s.res.Ev("diffs_other_sep_with_nested_keys", 1)
+				}
 			}
 		}
 	}
 }
 
-func (s *state) apiWalk(c *ucfg.Config, n *model.Node, q []string) {
+func optName(o []ucfg.Option, sep string) string {
+	if o == nil {
+		return "no options"
+	}
+	return fmt.Sprintf("PathSep(%q)", sep)
+}
+
+func (s *state) apiWalk(c *ucfg.Config, n *model.Node, q []string, sep string) {
 	if s.failed {
 		return
 	}
-	if p := c.Path("."); p != join(q) {
-		s.fail(s.classify(join(q), "path-wrong"), "config reached via %v reports Path()=%q", q, p)
+	if p := c.Path(sep); p != strings.Join(q, sep) {
+		sig := s.classify(join(q), "path-wrong")
+		for _, sp := range sepPool {
+			if sp != sep && p == strings.Join(q, sp) {
+				sig = "path-spelled-with-other-separator"
+			}
+		}
+		s.fail(sig, "config reached via %v reports Path(%q)=%q", q, sep, p)
 		return
 	}
 	s.res.Eval(1)
-	visit := func(seg string, v *model.Node, name string, idx int) {
-		if s.failed || !v.IsSub() || (len(v.D) == 0 && len(v.A) == 0) {
+	if len(q) > 0 && s.r.Intn(4) == 0 {
+		// FlattenedKeys of a child handle: the settings below it, root-relative
+		var want []string
+		leafPaths(n, q, &want)
+		fo, fsep := s.observer()
+		got := c.FlattenedKeys(fo...)
+		s.res.Eval(1)
+		if wantS := respell(want, fsep); !eq(got, wantS) {
+			sig := s.classify(join(q), "flattenedkeys-of-child-handle-mismatch")
+			if foreign(got, want, fsep) {
+				sig = "flattenedkeys-spelled-with-other-separator"
+			}
+			s.fail(sig, "FlattenedKeys(%s) of the handle for %v = %v want %v", optName(fo, fsep), q, got, wantS)
 			return
 		}
-		ch, err := c.Child(name, idx, opts...)
+		s.res.Ev("flattenedkeys_of_child_handles_compared", 1)
+	}
+	visit := func(seg string, v *model.Node, name string, idx int) {
+		if s.failed {
+			return
+		}
+		w := cat(q, []string{seg})
+		if p := c.PathOf(seg, sep); p != strings.Join(w, sep) {
+			s.fail(s.classify(join(q), "pathof-wrong"), "config reached via %v reports PathOf(%q,%q)=%q", q, seg, sep, p)
+			return
+		}
+		s.res.Eval(1)
+		if !v.IsSub() || (len(v.D) == 0 && len(v.A) == 0) {
+			return
+		}
+		ch, err := c.Child(name, idx, s.o()...)
 		s.res.Eval(1)
 		if err != nil {
 			s.fail("child-error", "Child(%q,%d) below %v failed: %v", name, idx, q, err)
 			return
 		}
-		w := join(append(append([]string{}, q...), seg))
 		if ch.Parent() != c {
-			s.fail(s.classify(w, "parent-wrong"), "config reached at %q: Parent() is not the config it was reached from (Parent path %q)", w, pathOf(ch.Parent()))
+			s.fail(s.classify(join(w), "parent-wrong"), "config reached at %q: Parent() is not the config it was reached from (Parent path %q)", join(w), pathOf(ch.Parent()))
 			return
 		}
-		s.apiWalk(ch, v, append(append([]string{}, q...), seg))
+		s.apiWalk(ch, v, w, sep)
 	}
 	for _, k := range n.SortedKeys() {
 		visit(k, n.D[k], k, -1)
